@@ -958,6 +958,7 @@ func (b *BaseStore) updateIndex(ctx context.Context) error {
 	_, span := b.tracer.Start(ctx, "update-index")
 	defer span.End()
 
+	verifhook.At("store.index.updating", b)
 	if err := b.Index().UpdateIndex(b.OpLog(), []ipfslog.Entry{}); err != nil {
 		return fmt.Errorf("unable to update index: %w", err)
 	}
